@@ -767,3 +767,109 @@ Proof.
   destruct (entity_chain ws a (tree_chain ws a mt path) en) as [|[chE|]]; [exact E| |exact E].
   split; [exact E|]. intro Hcl. rewrite E. apply (complete_after_dot_spec (absws ws) en Hcl).
 Qed.
+
+(* ====================================================================================== *)
+(* where wdefinition / wcompletion take which branch                                      *)
+(* ====================================================================================== *)
+
+(* a plain identifier (not under a dot, not a declared name): the look-up on the full chain, then `uses` *)
+Theorem wdefinition_plain_case ws a stem t p idx enc pi q up full :
+  distinct_stems ws = true -> nth_error ws a = Some (stem, t) -> flat_methods t = true ->
+  full_chain ws a t (descend p t) = Ans full -> path_up p t = (idx, enc) :: (pi, q) :: up ->
+  is_dot q = false -> (is_method_node q && Nat.eqb idx 0) = false -> is_member_decl enc = false ->
+  wdefinition ws a p = wdef_single ws a full (get_id enc p).
+Proof.
+  intros H0 H1 H2 H3 H4 H5 H6 H7. unfold wdefinition. rewrite H0, H1. cbn [negb]. rewrite H2. cbn [negb].
+  rewrite H3, H4, H5, H6, H7. reflexivity.
+Qed.
+
+(* the name after `self.` / `<own header name>.` inside a method *)
+Theorem wdefinition_member_case ws a stem t p i enc pi q up full lft en :
+  distinct_stems ws = true -> nth_error ws a = Some (stem, t) -> flat_methods t = true ->
+  full_chain ws a t (descend p t) = Ans full -> path_up p t = (S i, enc) :: (pi, q) :: up ->
+  is_dot q = true -> first_child q = Some lft -> own_entity t lft = Some en -> in_method (descend p t) = true ->
+  wdefinition ws a p =
+  match entity_chain ws a full en with
+  | Outside => Outside
+  | Ans None => Ans []
+  | Ans (Some ch) => Ans (wdef_all ws ch (get_id enc p))
+  end.
+Proof.
+  intros H0 H1 H2 H3 H4 H5 H6 H7 H8. unfold wdefinition. rewrite H0, H1. cbn [negb]. rewrite H2. cbn [negb].
+  rewrite H3, H4, H5. unfold wdef_rhs. rewrite H6, H7, H8. reflexivity.
+Qed.
+
+(* the declared name of a method / of a field, constant or type *)
+Theorem wdefinition_declared_name_case ws a stem t p idx enc pi q up full :
+  distinct_stems ws = true -> nth_error ws a = Some (stem, t) -> flat_methods t = true ->
+  full_chain ws a t (descend p t) = Ans full -> path_up p t = (idx, enc) :: (pi, q) :: up -> is_dot q = false ->
+  (is_method_node q = true -> idx = O -> wdefinition ws a p = Ans (wdef_all ws (class_level_t full) (get_id enc p))) /\
+  ((is_method_node q && Nat.eqb idx 0) = false -> is_member_decl enc = true ->
+     wdefinition ws a p = Ans (wdef_all ws full (get_id enc p))).
+Proof.
+  intros H0 H1 H2 H3 H4 H5. split.
+  - intros Hm ->. unfold wdefinition. rewrite H0, H1. cbn [negb]. rewrite H2. cbn [negb]. rewrite H3, H4, H5, Hm. reflexivity.
+  - intros Hm He. unfold wdefinition. rewrite H0, H1. cbn [negb]. rewrite H2. cbn [negb]. rewrite H3, H4, H5, Hm, He. reflexivity.
+Qed.
+
+Theorem wcompletion_plain_case ws a stem t p idx enc pi q up full :
+  distinct_stems ws = true -> nth_error ws a = Some (stem, t) -> flat_methods t = true ->
+  full_chain ws a t (descend p t) = Ans full -> path_up p t = (idx, enc) :: (pi, q) :: up ->
+  is_dot enc = false -> is_dot q = false ->
+  wcompletion ws a p = Ans (labels_lhs full).
+Proof.
+  intros H0 H1 H2 H3 H4 H5 H6. unfold wcompletion. rewrite H0, H1. cbn [negb]. rewrite H2. cbn [negb].
+  rewrite H3, H4, H5, H6. reflexivity.
+Qed.
+
+Theorem wcompletion_member_case ws a stem t p i enc pi q up full lft en :
+  distinct_stems ws = true -> nth_error ws a = Some (stem, t) -> flat_methods t = true ->
+  full_chain ws a t (descend p t) = Ans full -> path_up p t = (S i, enc) :: (pi, q) :: up ->
+  is_dot enc = false -> is_dot q = true -> first_child q = Some lft -> own_entity t lft = Some en ->
+  in_method (descend p t) = true ->
+  wcompletion ws a p =
+  match entity_chain ws a full en with
+  | Outside => Outside
+  | Ans None => Ans []
+  | Ans (Some ch) => Ans (labels_rhs ch)
+  end.
+Proof.
+  intros H0 H1 H2 H3 H4 H5 H6 H7 H8 H9. unfold wcompletion. rewrite H0, H1. cbn [negb]. rewrite H2. cbn [negb].
+  rewrite H3, H4, H5, H6. unfold wcompl_rhs. rewrite H7, H8, H9. reflexivity.
+Qed.
+
+(* ====================================================================================== *)
+(* the hypotheses are decidable                                                           *)
+(* ====================================================================================== *)
+
+Definition module_plainb (t : node) : bool :=
+  forallb (fun h => is_kind KAstClass h || match attr_tok K_parent h with None => true | Some _ => false end) (nchildren t).
+
+Definition doc_okb (d : doc) : bool :=
+  regularb (snd d) && ci_eqb (fst d) (e_name (ent d)) && module_plainb (snd d).
+
+Definition ws_okb (ws : wst) : bool := forallb doc_okb ws.
+
+Definition ws_acyclicb (ws : wst) : bool :=
+  forallb (fun j => match lineage_t ws j with Ans (false, _) => true | _ => false end) (seq 0 (length ws)).
+
+Lemma module_plainb_ok t : module_plainb t = true -> module_plain t.
+Proof.
+  unfold module_plainb, module_plain. intros H h Hin Hk. rewrite forallb_forall in H. specialize (H h Hin).
+  rewrite Hk in H. cbn [orb] in H. destruct (attr_tok K_parent h); [discriminate|reflexivity].
+Qed.
+
+Theorem ws_okb_ok ws : ws_okb ws = true -> ws_ok ws.
+Proof.
+  unfold ws_okb, ws_ok. intro H. rewrite forallb_forall in H. apply Forall_forall. intros d Hd. specialize (H d Hd).
+  unfold doc_okb in H. apply andb_true_iff in H. destruct H as [H H3]. apply andb_true_iff in H. destruct H as [H1 H2].
+  split; [apply regularb_ok; exact H1|]. split; [exact H2|apply module_plainb_ok; exact H3].
+Qed.
+
+Theorem ws_acyclicb_ok ws : ws_acyclicb ws = true -> ws_acyclic ws.
+Proof.
+  unfold ws_acyclicb, ws_acyclic. intros H j d Hn. rewrite forallb_forall in H.
+  assert (Hj : In j (seq 0 (length ws))).
+  { apply in_seq. assert ((j < length ws)%nat) by (apply nth_error_Some; rewrite Hn; discriminate). lia. }
+  specialize (H j Hj). destruct (lineage_t ws j) as [|[[|] path]]; try discriminate. exists path. reflexivity.
+Qed.
